@@ -1,5 +1,5 @@
 """Run-time contracts for C17 on generated graphs (corroborates the assumed link 'permanent node => exists in every
-architecture' and exercises evaluate with complete / partial / NaN evaluators)."""
+architecture' and exercises evaluate with complete / partial / NaN / all-zero evaluators)."""
 import math
 
 from . import gen, specsem
@@ -25,6 +25,8 @@ def metric_member(desc, tier, seed):
                         out[m] = 10.0 + i
                     elif mode == 'nan':
                         out[m] = math.nan
+                    elif mode == 'zero':
+                        out[m] = 0.0
                 return out
         return Ev(b.dsg, encoder_type=SelChoiceEncoderType.COMPLETE)
 
@@ -48,7 +50,7 @@ def metric_member(desc, tier, seed):
         else:
             role = None
         spec[m.name] = role
-    for mode in ('complete', 'partial', 'nan'):
+    for mode in ('complete', 'partial', 'nan', 'zero'):
         wit = ['COMPLETE', mode]
         nt = (desc.label, mode)
         try:
@@ -82,6 +84,8 @@ def metric_member(desc, tier, seed):
                 i = idx[name]
                 if mode == 'complete' or (mode == 'partial' and i % 2 == 0):
                     return 10.0 + i
+                if mode == 'zero':
+                    return 0.0
                 return math.nan
 
             def same(a, e):
